@@ -202,6 +202,32 @@ def check(model, tier):
             )
     if sites < 3:
         raise AnalysisError("Processor._process_recursive no longer reads or attaches payloads")
+    # ---- R07.13 nothing is handed back unprocessed
+    run.rule(
+        "R07.13",
+        "every returning path of _process_recursive has either found a payload on the node, or processed the node's "
+        "operands (a recursive call), or built a trivial payload in the destination engine: no other shortcut returns a "
+        "subtree as it is - the transfers and materializations inside it would reach the final engine unprocessed",
+        4,
+    )
+    for i, p in enumerate(paths):
+        if p.outcome != "return":
+            continue
+        inst = f"path{i}:processed"
+        calls_p = [call_attr(c) for _j, c in path_calls(p)]
+        has_payload = any(fct.kind == "IS" and not fct.polarity and "None" in fct.args and f"{orig}.payload" in fct.args for fct in path_facts(p, versioned=False))
+        if has_payload or "_process_recursive" in calls_p or "get_join_identity_payload" in calls_p or "get_doomed_payload" in calls_p:
+            run.ok("R07.13", inst)
+        else:
+            run.fail(
+                "R07.13",
+                inst,
+                f"a path returns `{src(p.value)[:50]}` without a payload on the node and without processing its operands: transfers and materializations below it stay as they are, and the SQL engine "
+                "(which evaluates every tree, trivial or not) refuses them",
+                fi=f,
+                node=p.node,
+                details=describe(p),
+            )
     # ---- R07.12 attach only where it can succeed, and only a payload that exists
     run.rule(
         "R07.12",
